@@ -1132,6 +1132,156 @@ func (e *c12Evil) app(out []byte, t *c11Ty, v reflect.Value) []byte {
 	return append(out, b[:w]...)
 }
 
+// c12Scan walks data the way the decoder would walk it for type t and returns the largest byte-string
+// length it sees declared.  It is only a filter of the generators: declared lengths are really
+// allocated and cleared by decodeBytes (a second or more per GiB, minutes on a loaded machine), so
+// inputs that declare more than 64 MiB are not generated (the corpus has some).  Approximate on purpose.
+type c12Scanner struct {
+	data []byte
+	max  uint64
+	ok   bool
+}
+
+func (sc *c12Scanner) take(n int) []byte {
+	if !sc.ok || len(sc.data) < n {
+		sc.ok = false
+		return nil
+	}
+	b := sc.data[:n]
+	sc.data = sc.data[n:]
+	return b
+}
+
+func (sc *c12Scanner) compact() uint64 {
+	b := sc.take(1)
+	if b == nil {
+		return 0
+	}
+	switch b[0] & 3 {
+	case 0:
+		return uint64(b[0] >> 2)
+	case 1:
+		c := sc.take(1)
+		if c == nil {
+			return 0
+		}
+		return (uint64(b[0]) | uint64(c[0])<<8) >> 2
+	case 2:
+		c := sc.take(3)
+		if c == nil {
+			return 0
+		}
+		return (uint64(b[0]) | uint64(c[0])<<8 | uint64(c[1])<<16 | uint64(c[2])<<24) >> 2
+	}
+	n := int(b[0]>>2) + 4
+	c := sc.take(n)
+	if c == nil {
+		return 0
+	}
+	var v uint64
+	for i := 0; i < n; i++ {
+		if i < 8 {
+			v |= uint64(c[i]) << (8 * uint(i))
+		} else if c[i] != 0 {
+			v = 1<<64 - 1
+		}
+	}
+	return v
+}
+
+func (sc *c12Scanner) walk(t *c11Ty, depth int) {
+	if !sc.ok || depth > 64 {
+		return
+	}
+	switch t.kind {
+	case "unit":
+	case "opt":
+		b := sc.take(1)
+		if b != nil && b[0] == 1 {
+			sc.walk(t.sub[0], depth+1)
+		} else if b != nil && b[0] != 0 {
+			sc.ok = false
+		}
+	case "res":
+		b := sc.take(1)
+		if b != nil && b[0] < 2 {
+			sc.walk(t.sub[b[0]], depth+1)
+		} else {
+			sc.ok = false
+		}
+	case "arr":
+		for i := 0; i < t.n && sc.ok; i++ {
+			sc.walk(t.sub[0], depth+1)
+		}
+	case "seq", "map":
+		n := sc.compact()
+		for i := uint64(0); i < n && sc.ok && i < 1<<16; i++ {
+			for _, s := range t.sub {
+				sc.walk(s, depth+1)
+			}
+		}
+	case "st":
+		_, idx, err := cache.fieldScaleIndices(reflect.New(t.goType()).Elem().Interface())
+		if err != nil {
+			sc.ok = false
+			return
+		}
+		v := reflect.New(t.goType()).Elem()
+		for _, i := range idx {
+			if v.Field(i.fieldIndex).CanInterface() {
+				sc.walk(t.sub[i.fieldIndex], depth+1)
+			}
+		}
+	case "en":
+		b := sc.take(1)
+		if b == nil {
+			return
+		}
+		for i, k := range t.idx {
+			if k == uint(b[0]) {
+				sc.walk(t.sub[i], depth+1)
+				return
+			}
+		}
+		sc.ok = false
+	case "bytes", "str":
+		l := sc.compact()
+		if !sc.ok {
+			return
+		}
+		if l > sc.max {
+			sc.max = l
+		}
+		if l > uint64(len(sc.data)) { // zero-filled short read: everything is consumed
+			if len(sc.data) == 0 && l > 0 {
+				sc.ok = false
+			}
+			sc.data = nil
+		} else {
+			sc.data = sc.data[l:]
+		}
+	case "bool", "u8", "i8":
+		sc.take(1)
+	case "u16", "i16":
+		sc.take(2)
+	case "u32", "i32":
+		sc.take(4)
+	case "u64", "i64":
+		sc.take(8)
+	case "u128":
+		sc.take(16)
+	case "cu", "big":
+		sc.compact()
+	}
+}
+
+// c12TooCostly reports whether decoding data into t would allocate a byte string above 64 MiB.
+func c12TooCostly(t *c11Ty, data []byte) bool {
+	sc := &c12Scanner{data: data, ok: true}
+	sc.walk(t, 0)
+	return sc.max > 1<<26
+}
+
 // c11RefEncode is the harness's own canonical SCALE encoder (no damage).
 func c11RefEncode(t *c11Ty, v reflect.Value) []byte {
 	return (&c12Evil{r: vhNewRng(0), p: 1 << 30}).enc(t, v)
